@@ -1,1 +1,4 @@
+import EncodingRs.Thm.C02
+import EncodingRs.Thm.C06
+import EncodingRs.Thm.C08
 import EncodingRs.Thm.C13
